@@ -115,7 +115,8 @@ def run_tlc(module, cfg, workers=16, simulate=None, depth=None, seed=None, cover
     """
     scratch = tempfile.mkdtemp(prefix="verif-tlc-")
     try:
-        cmd = ["timeout", "-k", "10", str(int(timeout)), "java", "-XX:+UseParallelGC", "-Xmx" + heap]
+        cmd = ["timeout", "-k", "10", str(int(timeout)), "java", "-XX:+UseParallelGC", "-Xmx" + heap,
+               "-Djava.io.tmpdir=" + scratch]
         for o in java_opts or []:
             cmd.append(o)
         cmd += ["-cp", JAR + ":" + COMMUNITY if os.path.exists(COMMUNITY) else JAR, "tlc2.TLC"]
